@@ -437,7 +437,7 @@ def attribute(case, message, bucket):
         case = case["case"]
     if case.get("part") == "e2e":
         q, qv, ml = _e2e_class(case["parts"], case["bad_at"])
-        if "C09-D1" in active and bucket == "e2e-line" and (len(q) + len(qv) >= 2 or any("\n" in p[1] for p in q)):
+        if "C09-D1" in active and bucket == "e2e-line" and (qv or len(q) >= 2 or any("\n" in p[1] for p in q)):  # a quoted-name verbatim block = 2 quoted tags
             return "C09-D1"
         if "C09-D2" in active and bucket.startswith("e2e-") and qv:
             return "C09-D2"
@@ -448,9 +448,10 @@ def attribute(case, message, bucket):
         qspans = [src[s:e] for tt, c, s, e in model if tt == "BLOCK" and ("'" in c or '"' in c)]
         if len(qspans) >= 2 or any("\n" in sp for sp in qspans):
             return "C09-D1"
-    if "C09-D2" in active and "quoted" in info["verbatim"] and (bucket.startswith("diff:") or bucket.startswith("unexpected-tse") or bucket == "lineno"):
+    symptom = bucket.startswith("diff:") or bucket.startswith("unexpected-tse") or bucket in ("lineno", "missing-tse")
+    if "C09-D2" in active and symptom and "quoted" in info["verbatim"]:
         return "C09-D2"
-    if "C09-D3" in active and (bucket.startswith("diff:") or bucket.startswith("unexpected-tse") or bucket == "lineno") and _bare_percent_in_quoted_tag(src):
+    if "C09-D3" in active and symptom and _bare_percent_in_quoted_tag(src):
         return "C09-D3"
     return None
 
